@@ -104,6 +104,18 @@ def sym(E, p, kf):
         E.notes["uf_mul"] = True
     ra = mk_ragged(RaggedArray, data, lens, dt)
     via = p["via"]
+    if p.get("pre"):
+        # the same reduction on a (lazy) selection: rows reversed / a row list -- the row starts of such a view are not sorted
+        from . import programs
+        P = programs.ParamStore(E, B=2)
+        sel = programs.step(ra, p["pre"], P, "s0")
+        got = outcome(lambda: _call(sel, p["op"], via, p.get("keepdims", False)))
+        fresh = mk_ragged(RaggedArray, data, lens, dt)
+        ref = programs.step(fresh, p["pre"], P, "s0")
+        o = common.obs_ragged(ref)
+        exp_arr = outcome(lambda: _call(RaggedArray(common.typed(o["flat"], dt), common.arr(o["lens"], "int64")), p["op"], via, p.get("keepdims", False)))
+        case = dict(lens=lens, data=data, op=p["op"], via=via, keepdims=p.get("keepdims", False), dtype=dt, pre=p["pre"], params=P.values)
+        return dict(goal=specs.obs_goal(got, exp_arr) if got["k"] == exp_arr["k"] else False, got=got, case=case)
     got = outcome(lambda: _call(ra, p["op"], via, p.get("keepdims", False)))
     case = dict(lens=lens, data=data, op=p["op"], via=via, keepdims=p.get("keepdims", False), dtype=dt)
     import z3 as _z
@@ -212,6 +224,11 @@ def conc(case):
         data = [d - (1 << 64) if d >= 1 << 63 else d for d in data]
     rows = common.rows_of(data, case["lens"])
     ra = mk_ragged(RaggedArray, np.array(data, dtype=dt) if data else [], case["lens"], dt)
+    if case.get("pre"):
+        from . import programs
+        P = programs.ParamStore(None, dict(case["params"]), B=2)
+        ra = programs.step(ra, case["pre"], P, "s0")
+        rows = common.rows_of(*[common.obs_ragged(programs.step(mk_ragged(RaggedArray, np.array(data, dtype=dt) if data else [], case["lens"], dt), case["pre"], P, "s0"))[k] for k in ("flat", "lens")])
     got = outcome(lambda: _call(ra, case["op"], case["via"], case["keepdims"]))
     rd = _res_dtype(case["op"], dt)
     if case["via"] in ("none", "npnone"):
@@ -237,6 +254,11 @@ def jobs(tier, seed):
         out.append(dict(base, op=op, via="method", keepdims=True))
         out.append(dict(base, op=op, via="none", Rmin=1 if op in ("prod",) else 0))
     out.append(dict(base, op="sum", via="method1"))
+    for pre in ("rowrev", "rowlist", "mask", "colrev"):
+        for op, via in (("sum", "method"), ("any", "reduce"), ("prod", "method"), ("all", "np")):
+            if q and (op, via) not in (("sum", "method"), ("any", "reduce")):
+                continue
+            out.append(dict(base, op=op, via=via, pre=pre, R=3, L=2 if q else 3))
     out.append(dict(base, op="sum", via="npnone"))
     for op in ("argmax", "argmin"):
         small = dict(R=2, L=3) if q else dict(R=3, L=3)
